@@ -18,6 +18,7 @@ LIMIT = 300_000
 MODES = {"default": "default", "none": "default", "zero": "c0", "one": "c1", "odd": "c" + zs(777),
          "large": "c" + zs(50000), "keep": "keep"}
 ILST_PATH = (b"moov", b"udta", b"meta", b"ilst")
+EMPTY_ILST = b"\x00\x00\x00\x08ilst"
 
 
 # ------------------------------------------------------------------ independent helpers (walker based)
@@ -69,7 +70,10 @@ def scratch_ilst(tags):
     scratch = at(b"ftyp", b"isom\0\0\0\0") + at(b"moov", at(b"udta", at(b"meta", b"\0\0\0\0" + at(b"ilst", b""))))
     b = io.BytesIO(scratch)
     tags.save(b, padding=lambda info: 0)
-    return ilst_of(b.getvalue())
+    out = b.getvalue()
+    # the ilst is written at the position of the old one (44 = ftyp 16 + moov 8 + udta 8 + meta 12); its own header gives its size
+    n = struct.unpack(">I", out[44:48])[0]
+    return out[44:44 + n] if out[48:52] == b"ilst" and n >= 8 else None
 
 
 def mutagen_tree(data):
@@ -226,7 +230,15 @@ def check_step(ctx, kind, st):
             if seen != tuple(st.cb[0][:2]):
                 ctx.disagree("fam.mp4", "padding callback arguments differ", dict(data, model=seen, impl=st.cb[0][:2]))
     else:
-        status, val = model_delete(ctx, st.before)
+        # module delete(): fresh load, no-op without an ilst.  obj.delete(): MP4Tags.delete = clear + save(padding 0) when
+        # the live object has tags (also tags added in memory only: then the empty structure is CREATED), no-op otherwise
+        if st.op == "delete" and ilst_of(st.before) is None and st.exc is None:
+            if st.after == st.before:
+                ctx.count("mp4:delete-without-tags")
+                return
+            status, val, _ = model_save(ctx, st.before, EMPTY_ILST, "c0")
+        else:
+            status, val = model_delete(ctx, st.before)
         ctx.corr_cases += 1
         ctx.count("mp4:corr-delete")
         compare(ctx, st.op, status, val, st.after, st.exc, data)
